@@ -7,9 +7,11 @@
    loop and of the parent except the parent's receive; so the replay performs a hidden send only when
    the observed receive needs it (any accepted schedule can be reordered into that shape). *)
 From Hy Require Import lib.Harness model.C04_Framing model.C06_Relay model.C06_E2E model.C06_Hook model.C06_Events gen.ParamsC06.
+From Hy Require lib.Res model.C17_Sniff.
 From Coq Require Import ZArith Bool.
 From Coq Require Strings.String.
 Local Open Scope N_scope.
+Module S17 := Hy.model.C17_Sniff.
 
 (* 32-bit polynomial digest, same function as c06Digest of the Go harness (no division: cheap in the VM) *)
 Definition dg32 (l : bytes) : N :=
@@ -353,7 +355,16 @@ Inductive case :=
    TrafficLogger vetoed (in the Up / Down direction) or not; observed: whether the user's QUIC connection was closed
    (veto: new Client.TCP calls fail within the bound; no veto: a fresh request is served), and what the EventLogger's
    TCPError calls for the request carried (true = a non-nil error) *)
-| CTail (evlog vetoed veto_up closed : bool) (ev_errs : list bool).
+| CTail (evlog vetoed veto_up closed : bool) (ev_errs : list bool)
+(* level (c), a relay whose request hook was the real Sniffer, on the real server and client (model/C06_Sniffed.v): `sent`
+   is what the client wrote; the sniffer took `consumed` bytes off the stream (observed: what the client wrote minus what
+   the relay forwarded behind the putback) and stopped there because the record was complete (e = 0), the stream ended
+   (1) or its read deadline fired (2); it handed back pbn bytes and left hook_addr (sni: the server name it answered);
+   `writes` are the sizes of the target connection's Write calls in order, `uplogs` the tx arguments of the LogTraffic
+   calls, stx StreamStats.Tx, gotn the bytes the target held when the server had torn the relay down after the client's
+   EOF (the harness found them to be the first gotn bytes of `sent`, compared as such here) *)
+| CSniff (logged hooked : bool) (sent : list byte) (consumed e : N) (sni : option (list byte)) (addr hook_addr : String.string)
+         (pbn : N) (writes uplogs : list N) (stx gotn : N).
 
 (* the model's run of that connection; the whole stream reaches the client, then FIN *)
 Definition check_hookfail (fo abort : bool) (pb : N) (msg : String.string) (got fin : N) : bool :=
@@ -429,6 +440,65 @@ Definition check_e2e (m : mode) (addr reqpad : String.string) (hdr_len hdr_dg : 
   | _ => false
   end.
 
+(* cut `sent` into the chunks the target's Write calls carried *)
+Fixpoint carve_w (sent : bytes) (ws : list N) : list bytes :=
+  match ws with
+  | [] => []
+  | w :: t => firstn (N.to_nat w) sent :: carve_w (skipn (N.to_nat w) sent) t
+  end.
+
+(* the run of handleTCPRequest (model/C06_Hook.v) that produces these Write calls: hooked - the ok response before the
+   dial, the hook's result, the direct write of a non-empty putback - or not; then every chunk of the Up loop (Read of
+   exactly that chunk, its LogTraffic with a logger, the Write), the client's EOF, the return of nil and the teardown *)
+Definition sniff_run (logged hooked : bool) (pb : bytes) (chunks : list bytes) : list hact :=
+  let up a := XRelay (ALoop Up a) in
+  let loop c := [up (LRead CopyBufSize c EN)] ++
+                (if logged then [up (LLog (blen c) 0 true)] else []) ++
+                [up (LWrite c (Z.of_N (blen c)) EN)] in
+  (if hooked
+   then [XReadReq true; XCheck true; XWriteResp true HookMsg; XHookTCP (Some pb); XDial None] ++
+        match pb with [] => [] | _ => [XPutback pb (Z.of_N (blen pb))] end
+   else [XReadReq true; XCheck false; XDial None; XWriteResp true Connected]) ++
+  flat_map loop chunks ++
+  [up (LRead CopyBufSize [] EEOF); up (LReturn GNil); XRelay (AFirstReturn GNil); XRelay ACloseTarget; XRelay ACloseStream].
+
+Definition sn_err (n : N) : option S17.c17_serr :=
+  match n with 0 => None | 1 => Some S17.SEof | _ => Some S17.STimeout end.
+
+Definition check_sniff (logged hooked : bool) (sent : list byte) (consumed e : N) (sni : option (list byte))
+           (addr hook_addr : String.string) (pbn : N) (writes uplogs : list N) (stx gotn : N) : bool :=
+  let addrb := sbytes addr in
+  let taken := firstn (N.to_nat consumed) sent in
+  (* the sniffer on what it took off the stream: it hands back all of it and nothing is left of those bytes *)
+  let hook :=
+    if hooked
+    then match S17.sniff_tcp 0 (fun _ => S17.CStop None) (fun _ => sni) false [S17.Ev taken (sn_err e)] addrb with
+         | Res.Ok o =>
+             if negb (S17.o_err o) && (blen (S17.o_replay o) =? pbn) && bytes_eqb (S17.o_replay o) (firstn (N.to_nat pbn) sent) &&
+                (match S17.c17_unread (S17.o_rest o) with [] => true | _ => false end) &&
+                bytes_eqb (S17.o_addr o) (sbytes hook_addr)
+             then Some (S17.o_replay o) else None
+         | _ => None
+         end
+    else if (consumed =? 0) && (pbn =? 0) then Some [] else None in
+  match hook with
+  | None => false
+  | Some pb =>
+      let rel_writes := match pb with [] => writes | _ => tl writes end in
+      (match pb, writes with [], _ => true | _, w :: _ => w =? pbn | _, [] => false end) &&
+      let chunks := carve_w (skipn (N.to_nat consumed) sent) rel_writes in
+      let run := sniff_run logged hooked pb chunks in
+      match hexec false (if logged then Logged else Fast) HReadReq run with
+      | Some (HRelay tx0 s) =>
+          (match par s with QDone => true | _ => false end) &&
+          bytes_eqb (htarget_in run) (firstn (N.to_nat gotn) sent) && (blen (htarget_in run) =? gotn) &&
+          (if logged
+           then (match hstats_tx (HRelay tx0 s) with Some t => t =? stx | None => false end) && N_list_eqb uplogs rel_writes
+           else true)
+      | _ => false
+      end
+  end.
+
 Definition check (c : case) : bool :=
   match c with
   | CRelay m tr complete tx rx sul sud sdl sdd =>
@@ -445,6 +515,8 @@ Definition check (c : case) : bool :=
       check_e2e m addr reqpad hl hd ua ub us da db ds de rp rl rd tr tx rx sul sud sdl sdd cli
   | CHookFail fo abort pb msg got fin => check_hookfail fo abort pb msg got fin
   | CTail evlog vetoed veto_up closed ev_errs => check_tail evlog vetoed closed ev_errs
+  | CSniff logged hooked sent consumed e sni addr hook_addr pbn writes uplogs stx gotn =>
+      check_sniff logged hooked sent consumed e sni addr hook_addr pbn writes uplogs stx gotn
   end.
 
 Definition mismatches (l : list case) : list nat := mism_from check 0 l.
